@@ -102,6 +102,14 @@ def Registry.get (reg : Registry) (name : String) : Option MethodDef :=
   | some kv => some kv.2
   | none => none
 
+/-- `bound_method()` inside its `try`: JsonRpcError is re-raised as it is, any other Exception
+becomes `ServerError()` without data; the body ran once either way. -/
+def runBody (m : MethodDef) (recv : Json) : MethodResult × List Event :=
+  ((match m.body recv with
+    | .ret v => MethodResult.value v
+    | .rpc e => .rpcError e
+    | .exc _ => .rpcError serverError), [.exec m.name recv])
+
 /-- dispatcher.py:500-523 `_handle_rpc_method`. -/
 def handleRpcMethod (reg : Registry) (name : String) (params : Params) : MethodResult × List Event :=
   match reg.get name with
@@ -114,12 +122,7 @@ def handleRpcMethod (reg : Registry) (name : String) (params : Params) : MethodR
       | .ok (lead, kw) =>
         match callKw m.sig lead kw with
         | .raised _ => (.rpcError serverError, [])              -- TypeError inside bound_method(): `except Exception`
-        | .ok received =>
-          let recv := Json.obj (received ++ m.viewCtx)
-          match m.body recv with
-          | .ret v => (.value v, [.exec m.name recv])
-          | .rpc e => (.rpcError e, [.exec m.name recv])        -- JsonRpcError: re-raised as it is
-          | .exc _ => (.rpcError serverError, [.exec m.name recv])  -- ServerError() without data
+        | .ok received => runBody m (Json.obj (received ++ m.viewCtx))
 
 /-- Error handlers: finite descriptions interpreted identically by the harness. -/
 inductive HandlerKind where
